@@ -27,6 +27,7 @@ from pyttb.pyttb_utils import tt_sub2ind
 
 from harness import gen
 from harness.lib import Family, Verdict, call, deep_eq, drive, frac, jval, strip_exc
+from harness.lib import sparse_j as lib_sparse_j
 
 RULE = ("cases come from random.Random(VERIF_SEED). samplers: dense and sparse tensors of order 1..3 (4 in "
         "thorough), extents 1..4, sparsity empty/one/some/all-but-one/all, sample counts 0..numel+3 (above the "
@@ -2014,5 +2015,249 @@ class Lbfgsb(Family):
                 yield {**case, "opts": {k: v for k, v in case["opts"].items() if k != key}}
 
 
+# ----------------------------------------------------------------------------
+# fg_setup.setup: which data a loss accepts, directly and through gcp_opt
+# ----------------------------------------------------------------------------
+#: the specification (GCP losses as documented): the data a loss is defined for, whether it needs the additional
+#: parameter, the lower bound of its model entries
+DOMAIN = {"GAUSSIAN": None, "HUBER": None, "BERNOULLI_ODDS": "binary", "BERNOULLI_LOGIT": "binary",
+          "POISSON": "natural", "POISSON_LOG": "natural", "RAYLEIGH": "nonneg", "GAMMA": "nonneg",
+          "NEGATIVE_BINOMIAL": "nonneg", "BETA": "nonneg"}
+NEEDS_PARAM = ("HUBER", "NEGATIVE_BINOMIAL", "BETA")
+LOWER = {"GAUSSIAN": -math.inf, "BERNOULLI_ODDS": 0.0, "BERNOULLI_LOGIT": -math.inf, "POISSON": 0.0,
+         "POISSON_LOG": -math.inf, "RAYLEIGH": 0.0, "GAMMA": 0.0, "HUBER": -math.inf, "NEGATIVE_BINOMIAL": 0.0,
+         "BETA": 0.0}
+DATA_CLASSES = ["binary-mixed", "binary-mixed", "binary-ones", "all-zero", "zero-two", "zero-one-half", "count", "count",
+                "count-positive", "int-negative", "positive-small", "positive-small", "positive-large",
+                "positive-mixed", "nonneg-zero", "nonneg-zero", "real-negative"]
+
+
+def admissible(domain, entries):
+    """Is the tensor with these entries (ALL entries, stored or not) in the domain of the loss?  Plain
+    arithmetic on exact rationals."""
+    xs = [Fraction(x) for x in entries]
+    if domain is None:
+        return True
+    if domain == "binary":
+        return all(x in (0, 1) for x in xs)
+    if domain == "natural":
+        return all(x.denominator == 1 and x >= 0 for x in xs)
+    return all(x >= 0 for x in xs)
+
+
+def class_entries(rng, klass, n):
+    """n entries (strings of exact rationals) of a data class; the defining feature of the class is forced to
+    occur (when n allows it)."""
+    def force(xs, *need):
+        pos = rng.sample(range(n), min(n, len(need)))
+        for k, v in zip(pos, need):
+            xs[k] = v
+        return xs
+    if klass == "binary-mixed":
+        return force([rng.choice(["0", "1"]) for _ in range(n)], "0", "1")
+    if klass == "binary-ones":
+        return ["1"] * n
+    if klass == "all-zero":
+        return ["0"] * n
+    if klass == "zero-two":
+        return force([rng.choice(["0", "0", "2"]) for _ in range(n)], "2")
+    if klass == "zero-one-half":
+        return force([rng.choice(["0", "1", "1/2"]) for _ in range(n)], "1/2")
+    if klass == "count":
+        return force([rng.choice(["0", "0", "1", "1", "2", "3", "5"]) for _ in range(n)], rng.choice(["2", "3", "7"]), "0")
+    if klass == "count-positive":
+        return force([rng.choice(["1", "2", "3", "4"]) for _ in range(n)], rng.choice(["2", "5"]))
+    if klass == "int-negative":
+        return force([rng.choice(["0", "1", "2", "3"]) for _ in range(n)], rng.choice(["-1", "-2"]))
+    if klass == "positive-small":       # all in (0, 1], something below 1
+        return force([f"{rng.randint(1, 8)}/8" for _ in range(n)], rng.choice(["1/8", "3/8", "7/8"]), "1")
+    if klass == "positive-large":       # all above 1
+        return [rng.choice(["3/2", "2", "5/2", "3", "17/8"]) for _ in range(n)]
+    mixed = [rng.choice(["1/4", "1/2", "1", "3/2", "2", "11/4", "3"]) for _ in range(n)]
+    if klass == "positive-mixed":
+        return mixed
+    if klass == "nonneg-zero":
+        return force(mixed, "0", rng.choice(["1/2", "3/2"]))
+    if klass == "real-negative":
+        return force(mixed, rng.choice(["-1/4", "-3/2", "-1"]))
+    raise ValueError(klass)
+
+
+def setup_data(c):
+    """The data object of a gcp_setup case (None | tensor | sptensor) and what `setup` reads of it."""
+    if c["rep"] == "none":
+        return None, None
+    shape = tuple(c["shape"])
+    vals = [Fraction(x) for x in c["entries"]]
+    if c["rep"] == "dense":
+        dt = int if c.get("dtype") == "int" else float
+        arr = np.array([dt(v) for v in vals], dtype=dt).reshape(shape, order="F")
+        return ttb.tensor(arr, copy=True), {"sparse": False, "vals": [jval(v) for v in vals]}
+    cells = gen.all_subs(c["shape"])
+    stored = [(cells[k], vals[k]) for k in c["order"] if vals[k] != 0]
+    data = gen.mk_sptensor(ttb, c["shape"], [q[0] for q in stored], [float(q[1]) for q in stored])
+    return data, {"sparse": True, "vals": [jval(q[1]) for q in stored]}
+
+
+class GcpSetup(Family):
+    """`fg_setup.setup(objective, data, parameter)` directly and through `gcp_opt`: every objective x dense (float
+    and integer arrays) / sparse (stored order shuffled) / no data x admissible and inadmissible data classes.  An
+    admissible request is answered with the loss's lower bound, an inadmissible one refused; implementation ==
+    Lean model (`setupS`) == specification (plain rational arithmetic on ALL entries of the tensor)."""
+    name = "gcp_setup"
+    theorems = ("C13_setup_table", "C13_setup_binary_dense", "C13_setup_binary_sparse", "C13_setup_natural_dense",
+                "C13_setup_natural_sparse", "C13_setup_nonneg_dense", "C13_setup_nonneg_sparse",
+                "C13_setup_nonneg_dense_zero_counterexample", "C13_setup_natural_negative_counterexample")
+
+    def gen(self, rng, tier):
+        out = []
+        objs = list(DOMAIN)
+        reps = 2 if tier == "quick" else 14
+        k = 0
+        for _ in range(reps):
+            for obj in objs:
+                for klass in sorted(set(DATA_CLASSES)):
+                    for rep in ("dense", "sparse"):
+                        # every objective x class x representation occurs in every run; shapes, values, the stored
+                        # order, the array type and the entry point vary
+                        k += 1
+                        shape = gen.shape(rng, 1, 3, 4)
+                        if gen.numel(shape) < 2 or (rep == "sparse" and rng.random() < 0.7 and gen.numel(shape) < 3):
+                            shape = rng.choice([[2, 3], [3, 2, 2], [4], [2, 1, 3], [3, 4]])
+                        n = gen.numel(shape)
+                        entries = class_entries(rng, klass, n)
+                        integral = all(Fraction(x).denominator == 1 for x in entries)
+                        order = list(range(n))
+                        rng.shuffle(order)
+                        c = {"objective": obj, "klass": klass, "rep": rep, "shape": shape, "entries": entries,
+                             "order": order if rng.random() < 0.8 else sorted(order),
+                             "dtype": "int" if (rep == "dense" and integral and rng.random() < 0.35) else "float",
+                             "param": rng.choice([None, "3/2", "2"]) if obj in NEEDS_PARAM else
+                             rng.choice([None, None, None, "2"]),
+                             "via": "setup"}
+                        nnz = sum(1 for x in entries if Fraction(x) != 0)
+                        # (gcp_opt on a 1-way tensor raises IndexError inside the estimate / the objective: CP of a
+                        # vector is outside what the solvers are written for and outside this family)
+                        if k % 3 == 0 and len(shape) >= 2 and (rep == "dense" or 0 < nnz < n):
+                            c.update(via="gcp_opt", param=None, rank=rng.randint(1, 2), seed=rng.randrange(10 ** 6),
+                                     solver=rng.choice(["sgd", "adam", "adagrad"] + (["lbfgsb"] * 3 if rep == "dense" else [])))
+                        out.append(c)
+        for obj in objs:     # no data at all: only the parameter decides
+            for param in (None, "3/2"):
+                out.append({"objective": obj, "klass": "no-data", "rep": "none", "shape": [], "entries": [], "order": [],
+                            "dtype": "float", "param": param, "via": "setup"})
+        return out
+
+    @staticmethod
+    def _run(c):
+        with quiet():
+            data, _ = setup_data(c)
+            before = None if data is None else (lib_sparse_j(data) if isinstance(data, ttb.sptensor)
+                                                else jval(np.asarray(data.data).flatten(order="F")))
+            param = None if c["param"] is None else float(Fraction(c["param"]))
+            if c["via"] == "setup":
+                def f():
+                    fh, gh, lb = setup(Objectives[c["objective"]], data, param)
+                    if not (callable(fh) and callable(gh)):
+                        raise AssertionError("setup returned something that is not a pair of callables")
+                    return {"lb": jval(float(lb))}
+                impl = call(f)
+            else:
+                r = np.random.RandomState(c["seed"])
+                init = [0.3 + r.uniform(size=(s, c["rank"])) for s in c["shape"]]
+                if c["solver"] == "lbfgsb":
+                    opt = O.LBFGSB(maxiter=2)
+                else:
+                    opt = CLS[c["solver"]](rate=1e-3, epoch_iters=1, max_iters=1, printitn=0)
+
+                def f():
+                    state = np.random.get_state()
+                    np.random.seed(c["seed"])
+                    try:
+                        m, m0, info = ttb.gcp_opt(data, c["rank"], Objectives[c["objective"]], opt, init=init, printitn=0)
+                    finally:
+                        np.random.set_state(state)
+                    fm = [np.asarray(x, dtype=float) for x in m.factor_matrices]
+                    return {"finite": bool(all(np.isfinite(x).all() for x in fm)),
+                            "min": min(float(x.min()) for x in fm),
+                            "shape_ok": [int(x.shape[0]) for x in fm] == list(c["shape"])
+                            and all(x.shape[1] == c["rank"] for x in fm)}
+                impl = call(f)
+            after = None if data is None else (lib_sparse_j(data) if isinstance(data, ttb.sptensor)
+                                               else jval(np.asarray(data.data).flatten(order="F")))
+        return impl, before == after
+
+    def evaluate(self, cases):
+        runs = [self._run(c) for c in cases]
+        reqs = []
+        for c in cases:
+            _, view = setup_data(c) if c["rep"] != "none" else (None, None)
+            # gcp_opt cannot hand a parameter over: it calls setup(objective, data)
+            reqs.append({"op": "c13_setup", "objective": c["objective"], "data": view,
+                         "param": None if c["param"] is None else jval(Fraction(c["param"]))})
+        models = drive(reqs)
+        return [self._judge(c, impl, same, m) for c, (impl, same), m in zip(cases, runs, models)]
+
+    @staticmethod
+    def _judge(c, impl, data_unchanged, m):
+        obj = c["objective"]
+        dom = DOMAIN[obj]
+        tags = [obj, "rep=" + c["rep"], "class=" + c["klass"], "via=" + c["via"], "dtype=" + c["dtype"],
+                "param=" + ("given" if c["param"] is not None else "none")]
+        data_ok = c["rep"] == "none" or admissible(dom, c["entries"])
+        spec_ok = data_ok and (obj not in NEEDS_PARAM or c["param"] is not None)
+        tags.append("spec=" + ("answer" if spec_ok else "refuse-data" if not data_ok else "refuse-parameter"))
+        impl_ok, model_ok = "ok" in impl, "ok" in m
+        if impl.get("reject"):
+            tags.append("reject")
+        what_data = f"{obj} on {c['rep']} data of class {c['klass']} (entries {c['entries'][:8]}...)"
+        if not data_unchanged:
+            return Verdict("violation", f"the call changed its data argument: {what_data}", impl, m, None, tags)
+        if impl_ok != model_ok:
+            return Verdict("violation", f"implementation {'answers' if impl_ok else 'refuses ' + str(impl.get('msg'))}, "
+                           f"the model of setup {'answers' if model_ok else 'refuses'}: {what_data}", impl, m,
+                           {"admissible": spec_ok}, tags, impl_ok)
+        if impl_ok != spec_ok:
+            xs = [Fraction(x) for x in c["entries"]]
+            if dom == "nonneg" and c["rep"] == "dense" and not impl_ok and data_ok and min(xs) == 0:
+                what = ("setup-nonneg-dense-zero: a dense NON-NEGATIVE tensor with an exact zero is refused "
+                        f"('{impl.get('msg')}'): {what_data}")
+            elif dom == "natural" and impl_ok and all(x.denominator == 1 for x in xs) and min(xs) < 0:
+                what = f"setup-natural-negative: a tensor with a negative entry is accepted as a count tensor: {what_data}"
+            elif spec_ok:
+                what = f"an admissible request is refused ({impl.get('exc')}: {impl.get('msg')}): {what_data}"
+            else:
+                what = ("a request outside the domain of the loss is answered: " if not data_ok else
+                        "a request without the additional parameter the loss needs is answered: ") + what_data
+            return Verdict("violation", what, impl, m, {"admissible": spec_ok}, tags, impl_ok)
+        if not impl_ok:
+            return Verdict("ok", "", impl, m, None, tags, False)
+        o = impl["ok"]
+        if c["via"] == "setup":
+            if not deep_eq(o["lb"], jval(LOWER[obj])):
+                return Verdict("violation", f"setup({obj}) returns the lower bound {o['lb']}, the loss has {LOWER[obj]}",
+                               impl, m, None, tags)
+            if not deep_eq(o["lb"], m["ok"]):
+                return Verdict("violation", f"setup({obj}) returns the lower bound {o['lb']}, the model {m['ok']}",
+                               impl, m, None, tags)
+        else:
+            if not (o["finite"] and o["shape_ok"]):
+                return Verdict("violation", f"gcp_opt answered with a model that is not finite / not of the shape and "
+                               f"rank asked for: {what_data}", impl, m, None, tags)
+            if o["min"] < LOWER[obj]:
+                return Verdict("violation", f"gcp_opt({obj}) returned a factor entry {o['min']} below the lower bound "
+                               f"{LOWER[obj]}", impl, m, None, tags)
+        return Verdict("ok", "", impl, m, None, tags, c["rep"] != "none")
+
+    def shrink(self, case):
+        c = case
+        if c["via"] == "gcp_opt":
+            yield {**c, "via": "setup"}
+        if c["rep"] != "none" and len(c["shape"]) > 1:
+            n = c["shape"][0]
+            if n >= 2:   # keep the first mode only
+                yield {**c, "shape": [n], "entries": c["entries"][:n], "order": [k for k in c["order"] if k < n]}
+
+
 def families():
-    return [Samplers(), Plans(), SolverScripted(), SolverReal(), Lbfgsb()]
+    return [Samplers(), Plans(), SolverScripted(), SolverReal(), Lbfgsb(), GcpSetup()]
